@@ -5,7 +5,7 @@ import "strings"
 // C08 — conditions, keys and operands are evaluated read-only.
 
 func init() {
-	register("C08", "Decides structural necessary conditions of 'evaluating an expression without update operators never changes the input': (X1, engine E1) for every function stored in an operationType.Handler slot that is not a declared update operator, the inter-procedural mutation footprint (stores reached from the handler, through callbacks, interface dispatch and locally built dynamic evaluations, with context-sensitive summaries) contains no store into a node reachable from the handler's context unless the store is dominated by a `!context.DontAutoCreate` test; (X2) every Context-deriving method keeps the read-only flag or sets it, the only escalation point is WritableClone, and a context made writable never evaluates a user sub-expression; (X3) the `as` binder and `select` evaluate their source / predicate under a read-only context, and (R1) every operand that is evaluated read-only on the pinned tree (42 sites) still is. (X7) `as $v` binds a Copy() of every matched node whatever the node is. Does NOT decide that results are correct, nor expressions parsed at run time from constant strings (array_to_map, pretty-print).", runC08)
+	register("C08", "Decides structural necessary conditions of 'evaluating an expression without update operators never changes the input': (X1, engine E1) for every function stored in an operationType.Handler slot that is not a declared update operator, the inter-procedural mutation footprint (stores reached from the handler, through callbacks, interface dispatch and locally built dynamic evaluations, with context-sensitive summaries) contains no store into a node reachable from the handler's context unless the store is dominated by a `!context.DontAutoCreate` test; (X2) every Context-deriving method keeps the read-only flag or sets it, the only escalation point is WritableClone, and a context made writable never evaluates a user sub-expression; (X3) the `as` binder and `select` evaluate their source / predicate under a read-only context, and (R1) every operand that is evaluated read-only on the pinned tree (42 sites) still is. (X7) `as $v` binds a Copy() of every matched node whatever the node is. (X8 = M5, X9 = M12) the assumptions E1 makes about merges on copies are checked: merge preferences carry DontFollowAlias and under it no alias edge is followed (two known findings). Does NOT decide that results are correct, nor expressions parsed at run time from constant strings (array_to_map, pretty-print).", runC08)
 }
 
 func runC08(c *Ctx) {
